@@ -51,7 +51,8 @@ from pydcop.infrastructure.agents import Agent, AgentException
 from pydcop.infrastructure.communication import CommunicationLayer, MSG_MGT
 from pydcop.infrastructure.computations import Message, message_type, \
     MessagePassingComputation
-from pydcop.infrastructure.discovery import Directory, UnknownAgent
+from pydcop.infrastructure.discovery import Directory, UnknownAgent, \
+    UnknownComputation
 from pydcop.reparation.removal import _removal_candidate_agents, \
     _removal_orphaned_computations, _removal_candidate_agt_info
 
@@ -776,14 +777,18 @@ class AgentsMgt(MessagePassingComputation):
                                   missing)
 
     def _cb_replica_registration(self, evt: str, replica: str, agent: str):
+        try:
+            replica_agents = self.discovery.replica_agents(replica)
+        except UnknownComputation:
+            # The computation itself may be unregistered at that point (it is
+            # migrating, or its agent is stopping).
+            replica_agents = None
         if evt == 'replica_added':
             self.logger.debug('Replica added for %s on %s, now : %s ',
-                              replica, agent,
-                              self.discovery.replica_agents(replica))
+                              replica, agent, replica_agents)
         elif evt == 'replica_removed':
             self.logger.debug('Replica removed for %s on %s, now : %s ',
-                              replica, agent,
-                              self.discovery.replica_agents(replica))
+                              replica, agent, replica_agents)
 
     def _on_computation_replicated_msg(self, sender: str,
                                        msg: ComputationReplicatedMessage, _):
